@@ -104,8 +104,11 @@ CLAIMS = {
     note="Proved: the theorems above, about Model/Anf.lean and Sem. Caveat in the theorems: a source run that goes wrong (Fail.stuck = ill-typed IR) "
          "is only required to be matched by some outcome (ANF names all operands before the operation, so it notices an ill-typed operand later); "
          "well-typedness of the IR is C03's. Validated only: that the model equals anf.rs (exact tie on every real function, every run); the statement "
-         "lowering of go/compile.rs (compile_aexpr*, compile_while, compile_go) and go/dce.rs - covered by the stage-wise oracle on the Go stage, "
-         "dce.rs is modelled and proved by worker dce; real goroutine interleavings (the semantics offers two schedules: run the activation at "
+         "lowering of go/compile.rs (compile_aexpr*, compile_while, compile_go) - covered by the stage-wise oracle on the Go stage. "
+         "go/dce.rs has its own model (Model/Dce.lean) tied exactly to the real pass on every run (gv dce | gomlmodel dce) and Props/Dce.lean proves "
+         "dce_preserves / dce_preserves_body / dce_preserves_syn: every definite Go.Sem run (normal end or panic) of a function body is reproduced by the DCE'd "
+         "body with the same world, signal and result, under the decidable contract scopeErrs = [] /\\ shapeOK /\\ semOK (forward simulation; divergence of the "
+         "input run and simultaneous DCE of callees are not covered); real goroutine interleavings (the semantics offers two schedules: run the activation at "
          "the spawn / never before the spawner ends). Two small refinements of Sem.lean were needed and agreed: a tag evaluates to the enum value "
          "of its type, and && / || with a non-boolean left operand get stuck before the right operand is evaluated. Found and fixed: dead-code "
          "elimination dropped a dead division by zero (known_findings.json, fix commit by worker dce). Trusted: Lean kernel, Sem/Go.Sem, dump "
@@ -354,11 +357,15 @@ CLAIMS = {
     text="Go.Check, a Lean checker for the rules go build/go vet enforce on the emitted subset (declared once and before use, typed "
          "assignment/call/return/composite literal, interface satisfaction, unused locals and imports, terminating statements, legal "
          "identifiers), applied to the REAL Go AST of every accepted corpus and generated program. goIdent_legal (C19) proves identifier "
-         "legality for all strings. Known findings: closures in func-typed positions, missing() at a non-unit type.",
-    design_ref="§5 C02",
+         "legality for all strings. The printed text is tied to that AST on every run (go_pprint output parsed back by goparse.rs with "
+         "Go's automatic-semicolon, precedence and composite-literal rules; oracle go-printer). Dead-code elimination (go/dce.rs) has a "
+         "Lean model tied exactly to the real pass (gv dce | gomlmodel dce) and theorems in Props/Dce.lean: dce_no_unused (every kept "
+         "local and type-switch binding is read), dce_decl_before_use, prune_imports_exact, prune_funcs_closed. "
+         "Known findings: closures in func-typed positions, nested type switch on one scrutinee, dyn-annotated struct literal.",
+    design_ref="§5 C02; DCE (C02/C09) — as built",
     note="Trusted: Go.Check as our reading of the Go spec (accepts the 73 corpus programs real Go accepted, rejects 058 as real Go did); "
-         "goast dump; go_pprint.rs not covered.",
-    technique="translation validation with a Lean-defined Go type/scope checker on the real Go AST"),
+         "goast dump; goparse.rs as our reading of Go's lexical grammar; compile.rs itself is validated per program, not modelled.",
+    technique="translation validation with a Lean-defined Go type/scope checker on the real Go AST, printer round trip, and Lean theorems about the DCE pass"),
  "C14": dict(
     category="proof",
     text="Lean theorems over Sem (Model/Sem.lean) and Model/Alpha.lean about exactly the two things in which the Core handed to mono/lift/anf/go differs "
